@@ -209,4 +209,13 @@ HARNESSES.append(
             functions=["_runner.py:_Runner._process_with_event", "_processor.py:_Processor.process"],
             covers=["stopped", "requeued"],
             stubs=["signal delivery = the captured handler is called at the start of loop iteration k"]))
+from harness.c03 import h03_stop_steps  # noqa: E402
+
+HARNESSES.append(
+    Harness(name="H06-stop-steps-during-reschedule", scenario=h03_stop_steps, workers=16, budget_s=900,
+            params={"quick": {"n_msgs": 1, "kinds": (3,), "max_steps": 12}, "thorough": {"n_msgs": 2, "kinds": (3,), "max_steps": 20}},
+            bounds={"as H03-stop-steps": "a recurring job: the stop request arrives while the actor runs, the actor ends 0..12 / 0..20 loop steps later, graceful period 0"},
+            functions=["_runner.py:_Runner._process_with_event", "_processor.py:_Processor.process"],
+            covers=["stopped"],
+            stubs=["signal delivery = the captured handler is called from inside the actor"]))
 ASSUMPTIONS = ["in-memory broker; iteration finish instants are free symbolic values constrained only by 'after its slot, non-decreasing'"]
